@@ -57,7 +57,10 @@ RULE = ("valid multi-block descriptions (rgv.gen.programs, 8% deliberately erron
         "sampled prefixes and suffixes of valid texts; 1-2 edits (char/token delete, insert, duplicate, swap, replace, shuffle); random "
         "Unicode incl. astral, combining, control characters and every \\s / line-break code point; nesting to depth 30 (closed, unclosed, "
         "parenthesised shorthand); long inputs (quick <= 4 kB, thorough <= 20 kB); numeric literals of 15..4301 digits; Markdown documents "
-        "with indented recipe blocks, prose with {..} expressions, images and links; non-trivial = not (accepted with a single plain "
+        "with indented recipe blocks, prose with {..} expressions, images and links; Markdown documents whose prose before a faulty "
+        "(indented or fenced) block holds line boundaries of str.splitlines other than LF / CRLF (FF, VT, FS, GS, RS, NEL, U+2028, "
+        "U+2029, lone CR) - for every Markdown error: the named line exists (splitlines convention), the snippet is the end of that "
+        "document line (container prefix / indentation removed), the column lies within the snippet or just past it; non-trivial = not (accepted with a single plain "
         "ingredient); distinct = distinct input text")
 
 SIGMA = "Σ"
@@ -236,12 +239,36 @@ def observe_markdown(md: str) -> Tuple[List[str], str, Any, Optional[str], List[
             js = dict(js, outcome="exception", type=name)
             tags.append("exception:" + name)
         else:
-            nl = len(md.splitlines()) + 1
-            if not (1 <= exc.line <= nl) or exc.column < 1:
-                viol = viol or f"{name} reported at line {exc.line} column {exc.column} of a {nl - 1}-line document"
+            pos = [exc.line, exc.column, getattr(exc, "snippet", None)]
+            js = dict(js, position=pos if all(isinstance(x, (int, str)) for x in pos) else None, exc_name=name)
+            viol = viol or md_position_violation(md, name, *pos)
     if dt > 30:
         viol = viol or f"compile_markdown took {dt:.1f} s"
     return sources, term, js, viol, tags
+
+
+def md_position_violation(md: str, name: str, line: Any, column: Any, snippet: Any) -> Optional[str]:
+    """The property's wording for an error in a Markdown document, under the tool's own line convention
+    (str.splitlines, as peggie's offset_to_line_and_column / extract_line): the named line exists, the quoted
+    snippet is that line's recipe text (the document line with its container prefix / indentation removed,
+    so the snippet is the END of the document line), the column lies within the snippet or just past it."""
+    lines = md.splitlines()
+    nl = len(lines)
+    if not isinstance(line, int) or not isinstance(column, int) or not isinstance(snippet, str):
+        return f"{name} carries no line/column/snippet: {line!r} {column!r} {snippet!r}"
+    if not (1 <= line <= max(1, nl)):
+        return f"{name} reported at line {line} column {column} of a {nl}-line document"
+    named = lines[line - 1] if nl else ""
+    # CommonMark removes the indentation of an indented code block with tabs behaving as if expanded to the next
+    # tab stop, so leading blanks of the snippet may stand for part of a tab of the document line; everything
+    # from the first non-blank character on must be the document line's own text, up to its end
+    core = snippet.lstrip(" \t")
+    if not named.endswith(core) or named[:len(named) - len(core)].strip(" \t>") != "":
+        return f"{name} names line {line}, which reads {named!r}, but quotes {snippet!r}"
+    # one past the line's terminator at most (C07_position_wellformed; "\r\n" is normalised to "\n")
+    if not (1 <= column <= len(snippet) + 2):
+        return f"{name} reported at column {column} of the {len(snippet)}-character snippet {snippet!r}"
+    return None
 
 
 def _marko_converts(md: str) -> bool:
@@ -286,6 +313,62 @@ def gen_markdown(rng: random.Random, f3: bool = False) -> str:
         out.append(rng.choice(F3_PROSE) if f3 else rng.choice(PROSE))
     eol = rng.choice(["\n", "\n", "\r\n"])
     return eol.join(out) + (eol if rng.random() < 0.8 else "")
+
+
+# Line boundaries of str.splitlines other than "\n" / "\r\n" (the convention of every error line of the tool).
+MD_SEPARATORS = ["\x0c", "\x0b", "\x1c", "\x1d", "\x1e", "\x85", "\u2028", "\u2029", "\r"]
+MD_FAULTY = ["stock = boil(bones,,)", "stock = boil(bones)\n1/2 of broth", "stock = boil(bones)\nstock = fry(more bones)",
+             "soup = simmer(leek\n", "a = b = c", "x := 50% y"]
+
+
+def md_block(src: str, fenced: bool, ind: str = "    ") -> str:
+    if fenced:
+        return "```recipe\n" + src + ("" if src.endswith("\n") else "\n") + "```\n"
+    return "".join((ind + ln if ln.strip() else ln) + "\n" for ln in src.split("\n") if ln or True).rstrip("\n") + "\n"
+
+
+def md_sep_document(sep: str, faulty: str, fenced: bool, where: int, n_sep: int = 1) -> str:
+    """A document whose text BEFORE the faulty block holds [n_sep] unusual line boundaries: in the prose
+    (where = 0), between two blocks (1), at the end of a heading line (2) or inside an earlier block's
+    neighbourhood as a line of its own (3)."""
+    seps = sep * n_sep
+    bad = md_block(faulty, fenced)
+    if where == 0:
+        return "Soup\n====\n\nPage one." + seps + "Page two.\n\n" + bad
+    if where == 1:
+        return md_block("base = boil(water)", fenced) + "\nThen" + seps + "later:\n\n" + bad
+    if where == 2:
+        return "# Soup" + seps + "\n\nSome prose.\n\n" + bad + "\nTrailing prose.\n"
+    return "Intro" + seps + "\n" + seps + "\nmore prose\n\n" + md_block("base = boil(water)", not fenced) + "\nend" + seps + "\n\n" + bad
+
+
+def md_sep_hand() -> List[str]:
+    out = []
+    for sep in MD_SEPARATORS:
+        for k, faulty in enumerate(MD_FAULTY):
+            for where in range(4):
+                out.append(md_sep_document(sep, faulty, (k + where) % 2 == 0, where, 1 + (k + where) % 3 // 2))
+    return out
+
+
+def gen_markdown_sep(rng: random.Random) -> str:
+    """Random document of the ordinary stream with unusual line boundaries sprinkled into its prose lines and a
+    faulty block at the end."""
+    md = gen_markdown(rng)
+    lines = md.split("\n")
+    for _ in range(rng.randrange(1, 4)):
+        k = rng.randrange(len(lines))
+        ln = lines[k]
+        if ln.strip() and not ln.startswith((" ", "\t", "```")) and not ln.endswith("\r"):
+            j = rng.randrange(len(ln) + 1)
+            lines[k] = ln[:j] + rng.choice(MD_SEPARATORS) * rng.choice([1, 1, 2]) + ln[j:]
+        else:
+            lines.insert(k, "prose" + rng.choice(MD_SEPARATORS) + "more")
+            lines.insert(k + 1, "")
+    md = "\n".join(lines)
+    if not md.endswith("\n"):
+        md += "\n"
+    return md + "\n" + md_block(rng.choice(MD_FAULTY), rng.random() < 0.5, rng.choice(["    ", "\t", "     "]))
 
 
 # --------------------------------------------------------------------------- generators
@@ -408,10 +491,13 @@ def _one(args: Tuple[int, int, str]) -> List[Case]:
     else:                                       # markdown
         for _ in range(2):
             out.append(make_md_case(_clean(gen_markdown(rng)), "md"))
+        out.append(make_md_case(_clean(gen_markdown_sep(rng)), "md-sep"))
     return out
 
 
 def _hand(args: Tuple[str, List[str]]) -> Case:
+    if args[0] == "md-sep-hand":
+        return make_md_case(args[1][0], args[0])
     return make_case(args[1], args[0])
 
 
@@ -426,6 +512,7 @@ def suites(tier: str, seed: int) -> List[Suite]:
         cases.extend(batch)
     rng = random.Random(seed * 31337 + 5)
     extra = [("hand", t) for t in HAND] + digit_cases(rng, 40 if tier == "quick" else 400)
+    extra += [("md-sep-hand", [d]) for d in md_sep_hand()]
     cases.extend(CC.pmap(_hand, extra))
     su.cases = cases
     return [su]
@@ -440,7 +527,9 @@ def replay(inp: Any) -> Case:
 def known_match(finding: Any, case: Case) -> bool:
     """F2: OverflowError / ValueError for a numeric literal of >= 309 digits.
        F2b: OverflowError when a quantity of >= 290 digits is compared with another (has_equal_value_to).
-       F3: AttributeError for a {..} expression inside image alt text (Markdown)."""
+       F3: AttributeError for a {..} expression inside image alt text (Markdown).
+       markdown_cr_crlf_line_count: error line of a Markdown document counted in the CRLF-normalised text although
+       "\\r\\r\\n" are two line boundaries of the document."""
     how = finding.get("matches")
     v = case.violation or ""
     inp = case.input
@@ -450,6 +539,12 @@ def known_match(finding: Any, case: Case) -> bool:
     if how == "quantity_comparison_overflow":
         return ("raised OverflowError" in v and ("too large for a float" in v or "too large to convert to float" in v)
                 and any(re.search(r"[0-9]{290,}", t) for t in texts))
+    if how == "markdown_cr_crlf_line_count":
+        # CR directly before CRLF: normalising CRLF to LF leaves "\r\n" = ONE boundary where the document has two;
+        # the position is right in the normalised text (and only there)
+        pos = case.impl.get("position") if isinstance(case.impl, dict) else None
+        return ("markdown" in inp and "\r\r\n" in inp["markdown"] and pos is not None and ("names line" in v or "reported at line" in v)
+                and md_position_violation(inp["markdown"].replace("\r\n", "\n"), case.impl.get("exc_name", ""), *pos) is None)
     if how == "image_alt_scaled_value":
         return ("markdown" in inp and "raised AttributeError" in v
                 and re.search(r"!\[[^\]\n]*\{[^\]\n]*\}[^\]\n]*\]\(", inp["markdown"]) is not None)
